@@ -651,17 +651,12 @@ def stage_agg(rng, tier, profile, gbin, gmodel, tb, stats):
                         viol.append({"kind": "avg-dec", "profile": profile, "type": t, "values": [str(v) for v in vals], "real": cell,
                                      "want_bits": "F%x" % int(want[5:]), "stmts": stmts})
                 elif not exact_fits:
-                    # a value although the i128 accumulator overflowed (release: wrapped)
-                    if ml.startswith("ok:"):
-                        known_add("avg-dec-i128-overflow", {"profile": profile, "type": t, "values": [str(v) for v in vals],
-                                                            "real": cell, "sql": stmts})
-                    else:
-                        viol.append({"kind": "avg-dec", "profile": profile, "type": t, "real": cell, "model": ml, "stmts": stmts})
+                    # a value although the exact total is outside the i128 accumulator (a wrapped sum): since 2f7b0a8b9 the
+                    # accumulator is checked, the model says err
+                    viol.append({"kind": "avg-dec", "profile": profile, "type": t, "real": cell, "model": ml, "stmts": stmts})
             else:
-                if not exact_fits and o[0] == "panic" and ml == "panic":
-                    known_add("avg-dec-i128-overflow", {"profile": profile, "type": t, "values": [str(v) for v in vals],
-                                                        "real": "panic: " + o[1][:80], "sql": stmts})
-                elif not exact_fits and o[0] == "err":
+                # the checked accumulator (model avg_dec_acc = err) must report an error; a panic is a violation
+                if not exact_fits and o[0] == "err" and ml == "err":
                     pass
                 else:
                     viol.append({"kind": "avg-dec", "profile": profile, "type": t, "outcome": list(o)[:2], "model": ml, "stmts": stmts})
